@@ -11,7 +11,7 @@ import (
 
 func vRTLen() int {
 	if vThorough() {
-		return 7
+		return 6
 	}
 	return 4
 }
